@@ -108,7 +108,10 @@ def real_ops_line(ops):
 def real_result(nodes, order, ops, cfg_utils):
   """Canonical text of what compute_order built, same format as the model driver prints."""
   b = "B" + ";".join("%d:%s" % (blk.id, ",".join(str(o.index) for o in blk.code)) for blk in nodes)
-  es = sorted({(blk.id, s.id) for blk in nodes for s in blk.outgoing})
+  # every edge with at least one endpoint among the final blocks (blocks deleted by the merge pass are only
+  # reachable through the incoming sets of the surviving ones)
+  es = sorted({(blk.id, s.id) for blk in nodes for s in blk.outgoing} |
+              {(p.id, blk.id) for blk in nodes for p in blk.incoming})
   e = "E" + ",".join("%d-%d" % p for p in es)
   o = "O" + ",".join(str(blk.id) for blk in order)
   return b, e, o
@@ -187,7 +190,10 @@ def oracle(ops, nodes, order, opcodes):
       # every resolved jump target starts a block
       v.append(("target-not-block-start", i, o.name, o.target.name))
   if dup_runs:
-    v.append(("instruction-in-several-blocks", "+".join(sorted({r[2] for r in dup_runs})), dup_runs[0][0]))
+    # was the block that originally started at the duplicated run kept as well?
+    kept = any(b.id == r[0] for r in dup_runs for b in nodes)
+    v.append(("instruction-in-several-blocks", "+".join(sorted({r[2] for r in dup_runs})) +
+              (":original-block-kept" if kept else ""), dup_runs[0][0]))
   ids = [b.id for b in nodes]
   if len(set(ids)) != len(ids):
     v.append(("duplicate-block-id",))
